@@ -11,7 +11,7 @@ from vf.sim.model import Model
 
 PROP_ID = 'C45'
 LEVEL = 'exploration'
-BUDGET = {'quick': 700, 'thorough': 16000}
+BUDGET = {'quick': 560, 'thorough': 16000}
 MANIFEST = {
     'engine': 'S',
     'technique': 'PBT on the stepped scheduler: constructed absolute-trigger '
@@ -57,6 +57,10 @@ ASSUMPTIONS = [
     'A truthful poll result is never processed after a later message of the '
     'same job (pending jobs-poll commands are returned before a delivery '
     'step).',
+    '"Recorded complete" = the first process_message event that shows the '
+    'output newly complete on the source instance, or (the engine records no '
+    'such event for the message that completes and removes a task) the '
+    'source instance\'s removal event listing the output.',
 ]
 
 OPS = ['loop', 'loop', 'ret', 'adv', 'del', 'round', 'round', 'round']
